@@ -190,6 +190,13 @@ static void gen_C02(const std::string &tier, uint64_t seed, long idx, Scn &s) {
   int Tmax = tier == "quick" ? 4 : 8;
   long W = window_count(Tmax) * (tier == "quick" ? 1 : 2);
   Rng g(Rng::mix(seed, 0xC02, (uint64_t)idx));
+  if (idx % 16 == 7) {   // the command-line path: key given as a string, modes as options, seed drawn from the (simulated) clock
+    s.i["cli"] = 1;
+    s.i["len"] = g.chance(0.3) ? (long)CHB() * (1 + (long)g.below(8)) - (long)g.below(2) * 16 : (long)g.below(9 * CHB() + 1);
+    s.i["t1"] = 1600000000 + (long)g.below(200000000);
+    s.i["ss0"] = (long)(g.next() >> 2);
+    return;
+  }
   if (idx >= W) {
     long r = idx - W;
     switch (r % 8) {
@@ -237,6 +244,7 @@ static std::string describe_format_diff(const Bytes &got, const Bytes &ref, int 
 }
 
 static Verdict run_C02(const Scn &s) {
+  if (s.geti("cli", 0)) return run_C02_cli(s);
   int T = (int)s.geti("T");
   long len = s.geti("len");
   Bytes P = make_plain(len, (uint64_t)s.geti("pseed"), (int)s.geti("ptype"), CHB());
